@@ -143,6 +143,27 @@ theorem spolynomial_term_abel (m n : ℕ) (rmin rmax r cs : ℝ) (h0 : 0 ≤ rmi
   push_cast
   ring
 
+/-- **on the axis** (`r = 0`, excluded above): the code adds `2 (r_maxᵏ − r_minᵏ)/k`, `k = m + 1`, for the isotropic terms (`n = 0`) only —
+    the line-of-sight integral of `Rᵐ` through the centre; terms with `n ≥ 1` vanish there -/
+theorem spolynomial_axis_value (m : ℕ) (rmin rmax : ℝ) (h0 : 0 ≤ rmin) (hle : rmin ≤ rmax) :
+    Abel (indicator (Ico rmin rmax) (fun R => R ^ m)) 0 = 2 * (rmax ^ (m + 1) - rmin ^ (m + 1)) / ((m : ℝ) + 1) := by
+  have h := abel_monoPiece rmin rmax 0 m h0 hle
+  unfold monoPiece at h
+  rw [h]
+  have e1 : hc (rmin ^ 2 - (0 : ℝ) ^ 2) = rmin := by rw [hc_of_nonneg (by nlinarith [sq_nonneg rmin])]; simp [Real.sqrt_sq h0]
+  have e2 : hc (rmax ^ 2 - (0 : ℝ) ^ 2) = rmax := by rw [hc_of_nonneg (by nlinarith [sq_nonneg rmax])]; simp [Real.sqrt_sq (le_trans h0 hle)]
+  rw [e1, e2, J_zero_x m rmin rmax h0 hle]; ring
+
+theorem spolynomial_axis_zero (m n : ℕ) (hn : 1 ≤ n) (rmin rmax cs : ℝ) :
+    Abel (indicator (Ico rmin rmax) (fun R => R ^ m * (0 * cs / R) ^ n)) 0 = 0 := by
+  have : indicator (Ico rmin rmax) (fun R : ℝ => R ^ m * (0 * cs / R) ^ n) = fun _ => (0 : ℝ) := by
+    funext R
+    have : (0 * cs / R) ^ n = 0 := by rw [zero_mul, zero_div]; exact zero_pow (by omega)
+    by_cases hm : R ∈ Ico rmin rmax
+    · rw [indicator_of_mem hm]; simp only [this, mul_zero]
+    · rw [indicator_of_notMem hm]
+  rw [this]; unfold Abel; simp
+
 /-- non-vacuity: the term `r² cos θ` on `[1, 3)` seen at `r = 2`, `cos = 1/2` -/
 example : (term 2 1 1 3 2 (1 / 2) : ℝ) = Abel (indicator (Ico 1 3) (fun R => R ^ 2 * (2 * (1 / 2) / R) ^ 1)) 2 :=
   spolynomial_term_abel 2 1 1 3 2 (1 / 2) (by norm_num) (by norm_num) (by norm_num) (by norm_num)
